@@ -22,4 +22,4 @@ git add -A; git commit -qm "merge $P builder branch (wip-$P)"
 echo "== check"
 ./check --setup 2>&1 | tail -2
 ./check $P --tier quick; echo "rc=$?"
-git add -A evidence; git commit -qm "evidence $P from /repo" >/dev/null
+git add -A; git commit -qm "evidence $P from /repo; regenerated files" >/dev/null
